@@ -11,6 +11,7 @@
 import ALV.Lemmas.C01Py
 import ALV.Lemmas.C01Bcast
 import ALV.Lemmas.C01ExcPy
+import ALV.Lemmas.C01Query
 import ALV.Gen.OpTable
 import ALV.Common.Audit
 
@@ -586,6 +587,277 @@ example : elementwiseE (fun t => match t with | .app _ (.atom 0 :: _) => true | 
     .cast .tuple (.error (.app n!"f" [.atom 0, .atom 10, kwMarker n!"base", .atom 11]))
       (.dead (.list 3 [.atom 2])) := by rfl
 example : (demoCall (.lazy .generator (.list 3 [.atom 1, .atom 0, .atom 2]))).found = true := by decide
+
+/-! ### C01.6 — the QUERY log: why a finite, settled oracle table is enough
+
+The driver is not handed python's number semantics but a finite table of the applications that raise,
+and answers with the applications it asked about (`Iter.stepQ` per call of `next`, `Iter.drainQ` per
+reading).  The harness settles the table until it agrees with python on every logged query. -/
+
+/-- **C01.6a** one call of `next`: an oracle that agrees with `bad` on the logged queries gives the same
+outcome, the same state afterwards and the same log. -/
+theorem oracle_step (bad bad' : Term → Bool) (e : Iter) (h : ∀ t ∈ e.stepQ bad, bad' t = bad t) :
+    e.stepE bad' = e.stepE bad ∧ e.stepQ bad' = e.stepQ bad :=
+  Iter.stepE_congr bad bad' e h
+
+/-- **C01.6b** a whole reading (`n` calls of `next` in try/except): a table that agrees with the true
+oracle on the logged queries gives the run of the true oracle — outcomes, final state (read counts) and log. -/
+theorem oracle_settled (bad bad' : Term → Bool) (e : Iter) (n : Nat)
+    (h : ∀ q ∈ e.drainQ bad n, ∀ t ∈ q, bad' t = bad t) :
+    e.drainS bad' n = e.drainS bad n ∧ e.drainQ bad' n = e.drainQ bad n :=
+  Iter.drain_congr bad bad' n e h
+
+/-- … the same for `take(k)` (the sized containers of the broadcast functions) … -/
+theorem oracle_settled_take (bad bad' : Term → Bool) (e : Iter) (k : Nat)
+    (h : ∀ q ∈ e.drainQ bad k, ∀ t ∈ q, bad' t = bad t) : e.takeE bad' k = e.takeE bad k :=
+  Iter.takeE_congr bad bad' k e h
+
+/-- … and for every script of `next` / `take(k)` reads that uses at most `n` calls, as far as it is observed
+(through the first read that meets the end of the data). -/
+theorem oracle_settled_script (bad bad' : Term → Bool) (e : Iter) (n : Nat) (rs : List Read) (hc : readsCost rs ≤ n)
+    (h : ∀ q ∈ e.drainQ bad n, ∀ t ∈ q, bad' t = bad t) :
+    untilEnd rs (e.script bad' rs).1 = untilEnd rs (e.script bad rs).1 := by
+  have h1 : e.drainE bad' n = e.drainE bad n := by
+    unfold Iter.drainE; rw [(Iter.drain_congr bad bad' n e h).1]
+  rw [Iter.script_outs bad' rs e n hc, Iter.script_outs bad rs e n hc, h1]
+
+/-- **C01.6c** the log of one call is the trace of the exception-free machine (`Iter.stepTrace`: every element
+computation python performs, thrown-away ones included) through its first raising application … -/
+theorem query_log (bad : Term → Bool) (e : Iter) : e.stepQ bad = throughFirst bad e.stepTrace :=
+  (Iter.traceOK bad e).1
+
+/-- … so every logged application but the last does not raise, and the call raises exactly when the last one
+does — then with that application's exception. -/
+theorem query_verdicts (bad : Term → Bool) (e : Iter) :
+    (∀ t, (e.stepE bad).1 = .raised t →
+      ∃ qs, e.stepQ bad = qs ++ [t] ∧ (∀ q ∈ qs, bad q = false) ∧ bad t = true) ∧
+    ((∀ t, (e.stepE bad).1 ≠ .raised t) → ∀ q ∈ e.stepQ bad, bad q = false) := by
+  have hT := Iter.traceOK bad e
+  cases hf : e.stepTrace.find? bad with
+  | none =>
+    obtain ⟨h1, h2⟩ := hT.none hf
+    refine ⟨fun t ht => ?_, fun _ q hq => find?_none_all hf q (h2 ▸ hq)⟩
+    rw [h1] at ht
+    exact absurd ht (liftStep'_not_raised _ t)
+  | some t =>
+    obtain ⟨e', h1⟩ := hT.some hf
+    obtain ⟨qs, rest, _, hq2, hgood, hbt⟩ := throughFirst_some bad _ t hf
+    refine ⟨fun t' ht' => ?_, fun hno => absurd (by rw [h1]) (hno t)⟩
+    rw [h1] at ht'
+    cases ht'
+    exact ⟨qs, by rw [hT.1, hq2], hgood, hbt⟩
+
+/-- **C01.6d** necessity: the log contains nothing superfluous — changing the verdict on ONE logged
+application (all other verdicts unchanged) changes the outcome of the call. -/
+theorem oracle_query_needed (bad bad' : Term → Bool) (e : Iter) (q : Term) (hq : q ∈ e.stepQ bad)
+    (hsame : ∀ t, t ≠ q → bad' t = bad t) (hdiff : bad' q ≠ bad q) :
+    (e.stepE bad').1 ≠ (e.stepE bad).1 :=
+  Iter.stepQ_needed bad bad' e q hq hsame hdiff
+
+/-! ### C01.7 — the step trace: which exception surfaces (entry `expr`: the exception-free machine plus its trace) -/
+
+/-- **C01.7a** one call of `next` under any oracle, read off the exception-free machine `Iter.step` and its
+trace: the exception of the first traced application that raises; when none raises, exactly the step of
+the exception-free machine (item, end and state). -/
+theorem trace_step (bad : Term → Bool) (e : Iter) :
+    match e.stepTrace.find? bad with
+    | some t => (e.stepE bad).1 = .raised t
+    | none => e.stepE bad = ((match e.step.1 with | some x => Out.item x | none => Out.stop), e.step.2) := by
+  have hT := Iter.traceOK bad e
+  cases hf : e.stepTrace.find? bad with
+  | some t => obtain ⟨e', h⟩ := hT.some hf; simp [h]
+  | none =>
+    obtain ⟨h, _⟩ := hT.none hf
+    simp only [h]
+    cases hs : e.step with
+    | mk o e' => cases o <;> rfl
+
+/-- **C01.7b** `take(n)`: the exception of the first application that raises, in the order of the traces of
+the successive calls (`Iter.runT`); when none raises, the items of the exception-free run. -/
+theorem trace_take (bad : Term → Bool) (e : Iter) (n : Nat) :
+    (e.takeE bad n).1 =
+      match (e.runT n).flatten.find? bad with
+      | some t => .error t
+      | none => .ok (e.run n) :=
+  Iter.takeE_trace bad n e
+
+/-- **C01.7c** conservative extension, pointwise in the oracle: when nothing the exception-free run computes
+raises, the reading with exceptions IS that run (items, final state) and the query log is its trace. -/
+theorem trace_drain (bad : Term → Bool) (e : Iter) (n : Nat) (h : (e.runT n).flatten.find? bad = none) :
+    e.drainS bad n = ((e.runS n).1.map .item, (e.runS n).2) ∧ e.drainQ bad n = e.runT n :=
+  Iter.drain_trace bad n e h
+
+/-! ### C01.8 — scripts of reads (`next` / `take(k)` in try/except, in any order, on the same Stream) -/
+
+/-- **C01.8a** a script is a function of the outcomes that successive calls of `next` deliver: `next` is the
+next outcome; `take(k)` all items of the next `k` outcomes or the first exception among them, and the Stream
+goes on right after that exception resp. after the `k` items. -/
+theorem exc_script (bad : Term → Bool) (e : Iter) (rs : List Read) (n : Nat) (hc : readsCost rs ≤ n) :
+    untilEnd rs (e.script bad rs).1 = scriptOuts rs (e.drainE bad n) :=
+  Iter.script_outs bad rs e n hc
+
+/-- **C01.8b** … hence for every well-typed Stream expression a script delivers `scriptOuts` of the
+compositional element-by-element reading `p.outs`. -/
+theorem exc_script_eval (bad : Term → Bool) (p : Py) (hp : p.sort = some .stream) :
+    ∃ it, evalPy genInstalled p = .ok (.iterable true it) ∧
+      ∀ rs n, readsCost rs ≤ n → untilEnd rs (it.script bad rs).1 = scriptOuts rs (p.outs bad n) := by
+  obtain ⟨it, h1, h2⟩ := exc_eval bad p hp
+  exact ⟨it, h1, fun rs n hc => by rw [exc_script bad it rs n hc, h2]⟩
+
+/-- **C01.8c** `peek(k)` (= `copy().take(k)`, an `itertools.tee` over the data) answers like `take(k)`: the
+items of the next `k` outcomes or the first exception among them; afterwards the items it saw are STILL in the
+Stream, the exception it met is GONE from it (a later read does not see it again), and the data goes on behind it. -/
+theorem exc_peek (bad : Term → Bool) (e : Iter) (k : Nat) :
+    (e.peekE bad k []).1 = takeOuts (e.drainE bad k) ∧
+    (ReadOut.metEnd (.peek k) (.took (takeOuts (e.drainE bad k))) = false → ∀ m,
+      ((e.peekE bad k []).2).drainE bad ((itemTerms (e.drainE bad k)).length + m) =
+        (itemTerms (e.drainE bad k)).map .item ++
+          (e.drainE bad (takeUsed (e.drainE bad k) + m)).drop (takeUsed (e.drainE bad k))) := by
+  obtain ⟨hp1, hp2⟩ := Iter.peekE_outs bad k [] e
+  refine ⟨by rw [hp1]; cases takeOuts (e.drainE bad k) <;> simp, fun hend m => ?_⟩
+  have hend' : ReadOut.metEnd (.take k) (.took (takeOuts (e.drainE bad k))) = false := by
+    cases h : takeOuts (e.drainE bad k) with
+    | error t => rfl
+    | ok xs => rw [h] at hend; simpa [ReadOut.metEnd] using hend
+  rw [hp2]
+  simp only [List.nil_append]
+  rw [Iter.drainE_buffer, Iter.takeE_state' bad k e hend' m]
+
+/-! non-vacuity of C01.6 – C01.8 -/
+
+/-- `7 / x` over `[1, 0, 2]` plus `[10, 20, 30]`, as an iterator tree -/
+def demoIt : Iter :=
+  .map2 n!"__add__" (.mapL n!"__truediv__" (.atom 7) (.list 0 [.atom 1, .atom 0, .atom 2])) (.list 1 [.atom 10, .atom 20, .atom 30])
+
+/-- the log of the reading: per call, the applications asked about -/
+example : demoIt.drainQ demoBad 5 =
+    [[.app n!"__truediv__" [.atom 7, .atom 1], .app n!"__add__" [.app n!"__truediv__" [.atom 7, .atom 1], .atom 10]],
+     [.app n!"__truediv__" [.atom 7, .atom 0]],
+     [.app n!"__truediv__" [.atom 7, .atom 2], .app n!"__add__" [.app n!"__truediv__" [.atom 7, .atom 2], .atom 20]],
+     []] := by rfl
+/-- a table with the one raising application agrees with `demoBad` on the log (hypothesis of C01.6b) -/
+def demoTable : Term → Bool
+  | .app _ [.atom 7, .atom 0] => true
+  | _ => false
+example : ∀ q ∈ demoIt.drainQ demoBad 5, ∀ t ∈ q, demoTable t = demoBad t := by decide
+/-- the tables differ elsewhere -/
+example : demoTable (.app n!"f" [.atom 0]) ≠ demoBad (.app n!"f" [.atom 0]) := by decide
+/-- C01.6d: the first logged query of the first call flipped -/
+example : (demoIt.stepE (fun t => match t with | .app _ [.atom 7, .atom 1] => true | _ => false)).1 =
+    .raised (.app n!"__truediv__" [.atom 7, .atom 1]) := by rfl
+/-- C01.7: trace and first raising application of the second call -/
+example : (demoIt.runT 2).flatten.find? demoBad = some (.app n!"__truediv__" [.atom 7, .atom 0]) := by rfl
+example : (demoIt.takeE demoBad 2).1 = .error (.app n!"__truediv__" [.atom 7, .atom 0]) := by rfl
+example : (demoIt.runT 3).flatten.find? (fun _ => false) = none := by rfl
+/-- C01.8: next, take(2) across the exception, next -/
+example : readsCost [.next, .take 2, .next] ≤ 4 := by decide
+example : scriptOuts [.next, .take 2, .next] (demoE.outs demoBad 4) =
+    [.one (.item (.app n!"__add__" [.app n!"__truediv__" [.atom 7, .atom 1], .atom 10])),
+     .took (.error (.app n!"__truediv__" [.atom 7, .atom 0])),
+     .one (.item (.app n!"__add__" [.app n!"__truediv__" [.atom 7, .atom 2], .atom 20]))] := by rfl
+/-- `peek(3)` meets the exception of position 1: position 0 is still there, the exception is not, position 2 follows -/
+example : ReadOut.metEnd (.peek 3) (.took (takeOuts (demoIt.drainE demoBad 3))) = false := by rfl
+example : (demoIt.script demoBad [.peek 3, .next, .next]).1 =
+    [.took (.error (.app n!"__truediv__" [.atom 7, .atom 0])),
+     .one (.item (.app n!"__add__" [.app n!"__truediv__" [.atom 7, .atom 1], .atom 10])),
+     .one (.item (.app n!"__add__" [.app n!"__truediv__" [.atom 7, .atom 2], .atom 20]))] := by rfl
+example : scriptOuts [.peek 3, .next, .next] (demoE.outs demoBad 5) =
+    [.took (.error (.app n!"__truediv__" [.atom 7, .atom 0])),
+     .one (.item (.app n!"__add__" [.app n!"__truediv__" [.atom 7, .atom 1], .atom 10])),
+     .one (.item (.app n!"__add__" [.app n!"__truediv__" [.atom 7, .atom 2], .atom 20]))] := by rfl
+/-- a `take` that meets the end closes the observation -/
+example : scriptOuts [.take 3, .next] [.item (.atom 1)] = [.took (.ok [.atom 1])] := by rfl
+
+/-! ### C01.3d — the lookup API `OpMethod.get` (finite: `decide` over the regenerated table)
+
+`genOps` = `OpMethod.get("all")` as computed by the model of `_initialize` / `_insert` from the regenerated
+table; `lookupK` = `OpMethod._all[key]`; `getOpsK` = `list(OpMethod.get(keys, without))`. -/
+
+def genOps : List OpMethod := initializeOps ALV.Gen.OpTable.table
+
+/-- the dunder names of a lookup result -/
+def dn (r : Option (List OpMethod)) : Option (List Name) := r.map fun l => l.map (·.dname)
+
+/-- `"all"` finds the 35 operator methods, each once -/
+theorem opget_all : getOpsK genOps [.str n!"all"] [] = some genOps ∧ genOps.length = 35 ∧ genOps.Nodup := by
+  decide +kernel
+
+/-- every operator method of the specification has an entry whose fields are as documented: name without
+underscores, symbol, reversed flag, arity, `operator` function, `repr` -/
+theorem opmethod_fields : ∀ sp ∈ specTable, ∃ o ∈ genOps, o.dname = sp.dname ∧ o.name = sp.name ∧
+    o.symbol = sp.symbol ∧ o.rev = sp.reflected ∧ o.arity = sp.arity ∧ o.func = sp.fn ∧ o.reprStr = sp.repr := by
+  decide +kernel
+
+/-- by name (`"add"`, `"radd"`, `"pos"`): exactly that operator method -/
+theorem opget_by_name : ∀ sp ∈ specTable, dn (lookupK genOps (.str sp.name)) = some [sp.dname] := by decide +kernel
+/-- by dunder (`"__add__"`): exactly that operator method -/
+theorem opget_by_dunder : ∀ sp ∈ specTable, dn (lookupK genOps (.str sp.dname)) = some [sp.dname] := by decide +kernel
+/-- by symbol (`"+"`): binary, reversed binary, unary — in this order -/
+theorem opget_by_symbol : ∀ sp ∈ specTable, dn (lookupK genOps (.str sp.symbol)) = some (specBySymbol sp.symbol) := by
+  decide +kernel
+/-- by `operator` function (`operator.add`): the plain and the reversed method -/
+theorem opget_by_func : ∀ sp ∈ specTable, dn (lookupK genOps (.func sp.fn)) = some (specByFunc sp.fn) := by
+  decide +kernel
+/-- `"r"`: exactly the reversed ones; `1` / `"1"`, `2` / `"2"`: exactly those of that arity -/
+theorem opget_by_flag : ∀ sp ∈ specTable,
+    (((lookupK genOps (.str n!"r")).getD []).any (fun o => o.dname == sp.dname) = sp.reflected) ∧
+    (∀ a ∈ [1, 2], (((lookupK genOps (.int a)).getD []).any (fun o => o.dname == sp.dname) = (sp.arity == a)) ∧
+                   lookupK genOps (.str [Char.ofNat (48 + a)]) = lookupK genOps (.int a)) := by
+  decide +kernel
+/-- the keys are all there is: anything else — `"div"`, a dunder without its underscores … — is unknown -/
+theorem opget_unknown (k : OpKey) : lookupK genOps k = none ↔ ∀ o ∈ genOps, k ∉ o.keysK := by
+  rw [lookupK_eq]
+  unfold OpMethod.under
+  constructor
+  · intro h o ho hk
+    split at h
+    · rename_i h0
+      have : o ∈ genOps.filter fun o => o.keysK.contains k := List.mem_filter.mpr ⟨ho, by simpa using hk⟩
+      rw [h0] at this; cases this
+    · cases h
+  · intro h
+    rw [if_pos]
+    apply List.filter_eq_nil_iff.mpr
+    intro o ho
+    simpa using h o ho
+example : ∀ k ∈ [n!"div", n!"__div__", n!"rdiv", n!"__rdiv__", n!"foo", n!"__add", n!"3"], lookupK genOps (.str k) = none := by
+  decide +kernel
+
+/-- **`OpMethod.get` in general**: when every key is known, the result is the entries filed under the keys, in the
+order asked for, minus those filed under a `without` key; one unknown key (in either list) is a ValueError. -/
+theorem opget_spec (ops : List OpMethod) (keys without : List OpKey) :
+    ((∀ k ∈ keys ++ without, OpMethod.under ops k ≠ []) →
+      getOpsK ops keys without =
+        some ((keys.flatMap (OpMethod.under ops)).filter fun o => !(without.any fun k => o.keysK.contains k))) ∧
+    ((∃ k ∈ keys ++ without, OpMethod.under ops k = []) → getOpsK ops keys without = none) :=
+  ⟨getOpsK_some ops keys without, getOpsK_none ops keys without⟩
+
+/-- twin: on string keys the general lookup is the one the metaclass model (`installW`) uses -/
+theorem opget_strings (ops : List OpMethod) (keys without : List Name) :
+    getOpsK ops (keys.map .str) (without.map .str) = getOps ops keys without ∧
+    (∀ k, lookupK ops (.str k) = allLookup ops k) :=
+  ⟨getOpsK_str ops keys without, lookupK_str ops⟩
+
+/-- twin: `class Stream` through the general path (`__operators__ = "all"`, no `__without__`, all three builders,
+the names bound in the class body) is the class of `install` that C01.1 / C01.2 are about -/
+theorem installW_stream :
+    installW ALV.Gen.OpTable.table (fun _ => true) ALV.Gen.OpTable.table.classNamespace [n!"all"] [] = .ok genInstalled := by
+  rfl
+
+/-- the examples of the docstring of `OpMethod.get` -/
+theorem opget_doc_examples :
+    dn (getOpsK genOps [.str n!"*"] []) = some [n!"__mul__", n!"__rmul__"] ∧
+    (getOpsK genOps [.str n!">>"] []).map List.length = some 2 ∧
+    dn (getOpsK genOps [.str n!"__add__"] []) = some [n!"__add__"] ∧
+    (getOpsK genOps [.str n!"rsub"] []).map (fun l => l.map (·.symbol)) = some [n!"-"] ∧
+    (getOpsK genOps [.str n!"%"] []).map (fun l => l.map fun o => (o.rev, o.arity)) = some [(false, 2), (true, 2)] ∧
+    dn (getOpsK genOps [.str n!"+"] []) = some [n!"__add__", n!"__radd__", n!"__pos__"] ∧
+    (getOpsK genOps [.func n!"__add__"] []).map (fun l => l.map (·.symbol)) = some [n!"+", n!"+"] ∧
+    (getOpsK genOps [.str n!"<<", .str n!">>"] []).map List.length = some 4 ∧
+    (getOpsK genOps [.str n!"<<", .str n!">>"] [.str n!"r"]).map List.length = some 2 ∧
+    dn (getOpsK genOps [.str n!"+", .str n!"&"] [.func n!"__add__", .str n!"r"]) = some [n!"__pos__", n!"__and__"] ∧
+    (getOpsK genOps [.int 2] [.str n!"-", .str n!"+", .str n!"*", .str n!"%", .str n!"r"]).map List.length = some 15 := by
+  decide +kernel
 
 end ALV.Props.C01
 
